@@ -6,7 +6,7 @@ import (
 
 // Weights bias exploration only; in a replay every enabled action is addressable by index.
 type Weights struct {
-	Reply, ReplyErr, Emit, AdvEvent, Advance, ExtWrite, Stall, ConnDrop int
+	Reply, ReplyErr, Emit, AdvEvent, Advance, ExtWrite, Stall, ConnDrop, ReplyBurst int
 	Ack, AckSkip, AckStale, Park, Unpark                                int
 	Close, Crash, Commit, Scrape, API, Publish, Persist, Failover       int
 	EndStream                                                           int
@@ -101,7 +101,7 @@ func defaultCfg(prop, tier string) *Cfg {
 		CkptType: "auto", AutoReset: "earliest", CkptInterval: 997 * time.Millisecond, CkptTimeout: 3001 * time.Millisecond,
 		Metadata: "couchbase", ConsumerMode: "immediate", Extra: map[string]string{},
 	}
-	c.W = Weights{Reply: 12, Emit: 10, AdvEvent: 3, Advance: 1, ExtWrite: 4, Ack: 6, AckSkip: 2, Unpark: 4}
+	c.W = Weights{Reply: 12, ReplyBurst: 2, Emit: 10, AdvEvent: 3, Advance: 1, ExtWrite: 4, Ack: 6, AckSkip: 2, Unpark: 4}
 	if tier == "thorough" {
 		c.MaxSteps = 700
 	}
